@@ -302,3 +302,21 @@ Lemma swap_success_leads_to_ok p c0 pl l :
   /\ cl_resume rank threshold (A2 p c0 pl l) (PBool false) = A3 p c0.
 Proof. split; reflexivity. Qed.
 End Mechanism.
+
+(** ** add-version's commit point (C11) *)
+Lemma latest_untouched_before_swap rank pagesz now st q :
+  (forall old new, q <> QCasLatest old new) ->
+  o_latest (ostore_step rank pagesz now st q).2 = o_latest st.
+Proof.
+  intros Hq. destruct q; cbn; try reflexivity. exfalso. eapply Hq. reflexivity.
+Qed.
+
+Lemma swap_is_atomic rank pagesz now st old new :
+  let st' := (ostore_step rank pagesz now st (QCasLatest old new)).2 in
+  (o_latest st = old /\ o_latest st' = Some new /\ o_vers st' = o_vers st /\ o_snaps st' = o_snaps st)
+  \/ (o_latest st <> old /\ st' = st).
+Proof.
+  cbn. destruct (bool_decide (o_latest st = old)) eqn:E.
+  - apply bool_decide_eq_true in E. left. cbn. auto.
+  - apply bool_decide_eq_false in E. right. cbn. auto.
+Qed.
